@@ -3,8 +3,10 @@ package checks
 import (
 	"bytes"
 	"fmt"
+	"reflect"
 
 	of "github.com/contiv/libOpenflow/openflow13"
+	"github.com/contiv/libOpenflow/util"
 	"verifharness/ev"
 )
 
@@ -39,6 +41,20 @@ func (h *heldRing) hold(f *of.MatchField, what string) {
 		return
 	}
 	it := heldField{f, append([]byte{}, b...), what}
+	for i := range b {
+		b[i] = 0x5A // what an encoder returned is the caller's to reuse (a frame buffer written in place)
+	}
+	// the same for the payload objects' own encodings (a caller that patches a value's bytes before sending them)
+	for _, pl := range []util.Message{f.Value, f.Mask} {
+		if pl == nil || (reflect.ValueOf(pl).Kind() == reflect.Ptr && reflect.ValueOf(pl).IsNil()) {
+			continue
+		}
+		if pb, err := pl.MarshalBinary(); err == nil {
+			for i := range pb {
+				pb[i] = 0x5A
+			}
+		}
+	}
 	if len(h.items) < h.cap {
 		h.items = append(h.items, it)
 		return
